@@ -75,12 +75,66 @@ PROPS = {
                     "'printing never alters the stored values' is a runtime clause: checked by the harness snapshot"],
         "assumptions": ["exact rational arithmetic in the model"],
     },
-    "C01": {"harness": "c01", "theorems": [], "partial": [], "assumptions": []},
-    "C07": {"harness": "c07", "theorems": [], "partial": [], "assumptions": []},
-    "C04": {"harness": "c04", "theorems": [], "partial": [], "assumptions": []},
-    "C03": {"harness": "c03", "theorems": [], "partial": [], "assumptions": []},
-    "C05": {"harness": "c05", "theorems": [], "partial": [], "assumptions": []},
+    "C01": {
+        "harness": "c01",
+        "theorems": ["DL.C01_mothers", "DL.C01_mother_names", "DL.C01_line", "DL.C01_param_num", "DL.C01_param_word", "DL.C01_numforms",
+                     "DL.C01_alphabet", "DL.dedupLoop_eq"],
+        "partial": ["the theorems are at statement level (what parse() makes of the statements); the reading of the text into statements "
+                    "(Lark LALR + contextual lexer) is tied by the correspondence check on every generated text and every shipped file, "
+                    "not proved (C01_parse_render is not a theorem yet)"],
+        "assumptions": [],
+    },
+    "C07": {
+        "harness": "c07",
+        "theorems": ["DL.C07_aliases", "DL.C07_charge_conjugates", "DL.C07_decays2copy", "DL.C07_definitions", "DL.C07_model_aliases",
+                     "DL.C07_alias_complete", "DL.C07_photos_absent", "DL.C07_photos_last", "DL.C07_cdecays", "DL.C07_lineshape_pw",
+                     "DL.C07_lineshape_repeat", "DL.C07_lsdef_repeat", "DL.C07_lineshape_new", "DL.C07_position_free",
+                     "DL.C07_width_given", "DL.C07_width_default", "DL.C07_width_unknown", "DL.dget_pairsToDict"],
+        "partial": ["Pythia / JetSet value typing is carried by the correspondence; reference widths come from the installed particle table "
+                    "through the harness (exact value of the float, divided by 1000 in the model)"],
+        "assumptions": [],
+    },
+    "C04": {
+        "harness": "c04",
+        "theorems": ["DL.C04_table", "DL.table_rows_ok", "DL.table_names_sorted", "DL.conjName_eq", "DL.C04_selfconj", "DL.C04_unknown", "DL.C04_unknown_pdg"],
+        "partial": ["final states and decay modes (multiplicities, metadata) and the PDG-name route are carried by the exhaustive / random "
+                    "correspondence (C04_daughters, C04_mode are not theorems yet)"],
+        "assumptions": ["the particle tables are the installed `particle` package's (environment), regenerated on every run"],
+        "gen_obligations": ["table_rows_ok and table_sorted_adj are decided by the kernel over the regenerated 806-row table"],
+    },
+    "C03": {
+        "harness": "c03",
+        "theorems": ["DL.C03_switch_off", "DL.C03_source_untouched", "DL.C03_precedence", "DL.C03_miss", "DL.C03_shape", "DL.C03_first_daughter",
+                     "DL.C03_orientation", "DL.C03_database_rule", "DL.C03_unknown_marked", "DL.C03_selfconj"],
+        "partial": ["'the growing dictionary of the visitor never changes an answer' (C03_cache) is not a theorem yet: the model threads the "
+                    "dictionary exactly as the code does and the daughters of conjugated tables are compared with the code on every generated file"],
+        "assumptions": ["each name is the subject of at most one CDecay (the property's own quantifier)"],
+    },
+    "C05": {
+        "harness": "c05",
+        "theorems": ["DL.C05_last_define", "DL.C05_last_model_alias", "DL.C05_define_use", "DL.C05_define_minus", "DL.C05_define_expand",
+                     "DL.C05_define_minus_expand", "DL.C05_verbatim", "DL.C05_alias_expand", "DL.C05_shared", "DL.C05_position_free"],
+        "partial": ["the whole-file statement tables(substDoc d) = tables d is given as the local substitution lemmas (per parameter, per line) "
+                    "plus position-freedom; the harness compares the tables of every generated text with those of its textual expansion",
+                    "sharing of one alias subtree between lines (finding F1) is runtime aliasing: covered by the harness and C08's object-graph audit"],
+        "assumptions": [],
+    },
     "C02": {"harness": "c02", "theorems": [], "partial": [], "assumptions": []},
-    "C08": {"harness": "c08", "theorems": [], "partial": [], "assumptions": []},
-    "C06": {"harness": "c06", "theorems": [], "partial": [], "assumptions": []},
+    "C08": {
+        "harness": "c08",
+        "theorems": ["DL.C08_copy", "DL.C08_copy_prefix", "DL.C08_copy_miss", "DL.C08_copy_as_source", "DL.C08_pure", "DL.C08_reparse"],
+        "partial": ["independence from the history of queries is structural in a functional model (C08_pure); its runtime content - CPython "
+                    "object aliasing between tables, and queries mutating the parser - cannot be exhibited by the model and is carried by the "
+                    "harness: history runs with in-place mutation compared with fresh instances after every step, and the object-graph audit"],
+        "assumptions": [],
+    },
+    "C06": {
+        "harness": "c06",
+        "theorems": ["DL.C06_self", "DL.C06_extension", "DL.C06_merge", "DL.C06_published", "DL.C06_published_separators", "DL.C06_boundary",
+                     "DL.C06_reject", "DL.firstMatch_self", "DL.firstMatch_word"],
+        "partial": ["the theorems are about the MODEL_NAME terminal (lexModel) and about parse() on statements; that the LALR parser offers "
+                    "MODEL_NAME before LABEL in model position is tied by the exhaustive correspondence (every published name x contexts)"],
+        "assumptions": [],
+        "gen_obligations": ["C06_published and C06_boundary are decided over the regenerated model list and grammar data"],
+    },
 }
